@@ -16,7 +16,8 @@ EXTENDS Cli
 
 CONSTANTS MaxDocs, MaxEv,       \* family B
           MaxDocsA, MaxEvA,     \* family A
-          Rich                  \* TRUE: the full event alphabet in family B; FALSE: a reduced one (for deeper bounds)
+          Rich,                 \* TRUE: the full event alphabet in family B; FALSE: a reduced one (for deeper bounds)
+          Side                  \* TRUE: runs may also contain a debug message (a call of the command's `debug`)
 
 \* values: falsy, truthy, a string that --raw-output0 rejects, a plain string, a nested container
 VNull == Null
@@ -35,7 +36,7 @@ RECURSIVE SeqsUpTo(_, _)
 SeqsUpTo(S, n) == IF n = 0 THEN {<<>>} ELSE LET R == SeqsUpTo(S, n - 1) IN R \cup {Append(r, x) : r \in {q \in R : Len(q) = n - 1}, x \in S}
 
 \* runs of at most n events: values (and debug messages), then possibly one stopper
-Runs(V, T, n) == LET vs == SeqsUpTo({ValEv(v) : v \in V} \cup (IF Rich THEN {DbgEv(VStr)} ELSE {}), n) IN
+Runs(V, T, n) == LET vs == SeqsUpTo({ValEv(v) : v \in V} \cup (IF Side THEN {DbgEv(VStr)} ELSE {}), n) IN
                  vs \cup {Append(r, t) : r \in {q \in vs : Len(q) < n}, t \in T}
 
 Tok(name) == [k |-> "long", name |-> name]
